@@ -10,6 +10,7 @@ import Scico.Proofs.AdjointTotal
 import Scico.Proofs.AdjointSlab
 import Scico.Proofs.AdjointSpectral
 import Scico.Proofs.AdjointLink
+import Scico.Proofs.AdjointClosed
 
 namespace Scico.Props.C01
 open Scico.Adjoint Finset
@@ -295,6 +296,13 @@ theorem C01_dft_pair (n : Nat) (ζ : K) (hζ : star ζ = ζ⁻¹) (D : V K) :
     IsAdj (Op.spectral n (fun f j => ζ ^ (j * f)) (fun i f => (n : K)⁻¹ * ζ⁻¹ ^ (i * f)) D) :=
   spectral_isAdj n _ _ (n : K)⁻¹ (star_natCast_inv n) (fun i _ f _ => by simpa [Nat.mul_comm] using dft_pair n ζ hζ i f) D
 
+/-- `fftn` / `ifftn` over ANY number of axes (`F` = Kronecker product of the 1-D transforms with roots on the unit
+    circle, `G = N⁻¹·` the same with the inverse roots): `CircularConvolve` as coded in the transform domain is an adjoint
+    pair for every `h_dft`, every `ndims` -/
+theorem C01_dft_nd_pair (ds : List Nat) (zs : List K) (hz : ∀ z ∈ zs, star z = z⁻¹) (n N : Nat) (D : V K) :
+    IsAdj (Op.spectral n (kronF ds zs) (fun i f => (N : K)⁻¹ * kronF ds (zs.map (·⁻¹)) i f) D) :=
+  spectral_isAdj n _ _ (N : K)⁻¹ (star_natCast_inv N) (fun i _ f _ => kron_pair ds zs hz N i f) D
+
 /-- the real parts `_eval` / `_adj` take for a real output space (`self.real`) or a real input space keep an adjoint
     pair adjoint in `Re⟪·,·⟫` -/
 theorem C01_circ_real_wrappers {A : Op ℂ} (hA : IsAdjRe A) :
@@ -314,6 +322,47 @@ theorem C01_typed_tree (coded : Bool) (env : Nat → Op K) (envT : Nat → TOp) 
     IsAdj (run env e) ∧ (run env e).nin = (runT coded envT t).ish.size ∧ (run env e).nout = (runT coded envT t).osh.size :=
   ⟨(isAdj_iff _).mpr (typed_tree_isAdjW test_id coded env envT hsz (fun i => (isAdj_iff _).mp (henv i)) he hw hp hd),
     (erase_good coded env envT hsz he hw hp).nin, (erase_good coded env envT hsz he hw hp).nout⟩
+
+/-! ### class-specific overrides (`Diagonal`, `ScaledIdentity`, `Identity`, `MatrixOperator`) -/
+
+/-- `Diagonal(d)` (hence `ScaledIdentity`, `Identity`) with its automatically derived adjoint `conj(d)·y` is an adjoint pair -/
+theorem C01_diag_adj (n : Nat) (d : V K) : IsAdj (Op.diag n d) := diag_isAdj n d
+
+/-- the overrides of the Diagonal family build operators with the same `eval` and `adj` as the generic constructions of
+    `_linop.py` on the same operands: `.conj()` = `Diagonal(conj d)`, `.H` = `self.conj()`, `.T` = `self` (complex dtype
+    branch always; real dtype branch for real `d`), `gram_op` = `Diagonal(conj(d)·d)`, `±`, scalar `*`, `/`, `@` -/
+theorem C01_diagonal_overrides (n : Nat) (d e : V K) (c : K) :
+    OpEq (Op.cj (Op.diag n d)) (Op.diag n (vconj d))
+      ∧ OpEq (Op.herm (Op.diag n d)) (Op.diag n (vconj d))
+      ∧ OpEq (Op.tr true (Op.diag n d)) (Op.diag n d)
+      ∧ ((∀ i, star (d i) = d i) → OpEq (Op.tr false (Op.diag n d)) (Op.diag n d))
+      ∧ OpEq (Op.gram (Op.diag n d)) (Op.diag n (fun i => conj (d i) * d i))
+      ∧ OpEq (Op.add (Op.diag n d) (Op.diag n e)) (Op.diag n (vadd d e))
+      ∧ OpEq (Op.sub (Op.diag n d) (Op.diag n e)) (Op.diag n (vsub d e))
+      ∧ OpEq (Op.smul c (Op.diag n d)) (Op.diag n (vsmul c d))
+      ∧ OpEq (Op.sdiv c (Op.diag n d)) (Op.diag n (vsdiv d c))
+      ∧ OpEq (Op.comp (Op.diag n d) (Op.diag n e)) (Op.diag n (fun i => d i * e i)) :=
+  ⟨diag_cj n d, diag_herm n d, diag_tr n d true (fun h => by cases h), fun h => diag_tr n d false (fun _ => h),
+    diag_gram n d, diag_add n d e, diag_sub n d e, diag_smul n c d, diag_sdiv n c d, diag_comp n d e⟩
+
+/-- the overrides of `MatrixOperator`: `.H` = `MatrixOperator(A.conj().T)`, `.conj()`, `.T` = `MatrixOperator(A.T)`,
+    `gram_op` = `MatrixOperator(Aᴴ A)`, `±`, scalar `*`, `/`, `@` = `MatrixOperator(A @ B)` -/
+theorem C01_matrix_overrides (m k n : Nat) (A B : Nat → Nat → K) (C : Nat → Nat → K) (c : K) :
+    OpEq (Op.herm (Op.mat m n A)) (Op.mat n m (fun j i => conj (A i j)))
+      ∧ OpEq (Op.cj (Op.mat m n A)) (Op.mat m n (fun i j => conj (A i j)))
+      ∧ OpEq (Op.tr true (Op.mat m n A)) (Op.mat n m (fun j i => A i j))
+      ∧ ((∀ i j, star (A i j) = A i j) → OpEq (Op.tr false (Op.mat m n A)) (Op.mat n m (fun j i => A i j)))
+      ∧ OpEq (Op.gram (Op.mat m n A)) (Op.mat n n (matMul m (fun j i => conj (A i j)) A))
+      ∧ OpEq (Op.add (Op.mat m n A) (Op.mat m n B)) (Op.mat m n (fun i j => A i j + B i j))
+      ∧ OpEq (Op.sub (Op.mat m n A) (Op.mat m n B)) (Op.mat m n (fun i j => A i j - B i j))
+      ∧ OpEq (Op.smul c (Op.mat m n A)) (Op.mat m n (fun i j => c * A i j))
+      ∧ OpEq (Op.sdiv c (Op.mat m n A)) (Op.mat m n (fun i j => A i j / c))
+      ∧ OpEq (Op.comp (Op.mat m k C) (Op.mat k n A)) (Op.mat m n (matMul k C A)) :=
+  ⟨mat_herm m n A, mat_cj m n A, mat_tr m n A true (fun h => by cases h), fun h => mat_tr m n A false (fun _ => h),
+    mat_gram m n A, mat_add m n A B, mat_sub m n A B, mat_smul m n c A, mat_sdiv m n c A, mat_comp m k n C A⟩
+
+/-- operators with the same `eval`/`adj` are adjoint pairs together (so every shortcut above is an adjoint pair) -/
+theorem C01_opEq_adjoint {A B : Op K} (h : OpEq A B) (hA : IsAdj A) : IsAdj B := h.isAdj hA
 
 /-! ### non-vacuity -/
 
@@ -400,5 +449,15 @@ example (A : Nat → Nat → K) :
   intro envT env t
   refine ⟨fun _ => ⟨rfl, rfl⟩, by decide, by simp [t, posOK], ?_⟩
   exact .vfin (.vcons (.tr (.herm (.leaf 0))) (.vone (.smul .wcplx 2 (.leaf 0))))
+
+-- two axes of lengths 4 and 2 with the roots i and −1 (both on the unit circle)
+example : ∀ z ∈ [Complex.I, (-1 : ℂ)], star z = z⁻¹ := by
+  intro z hz
+  simp only [List.mem_cons, List.mem_nil_iff, or_false] at hz
+  rcases hz with rfl | rfl <;> simp
+
+-- the shortcut `Diagonal.gram_op` is an adjoint pair, through the generic construction
+example (d : V K) : IsAdj (Op.diag 3 (fun i => conj (d i) * d i)) :=
+  C01_opEq_adjoint (diag_gram 3 d) (gram_isAdjW test_id (diag_isAdj 3 d))
 
 end Scico.Props.C01
